@@ -41,6 +41,11 @@ FORBIDDEN = re.compile(
 # ---------------------------------------------------------------------------------------
 # stream spec: (name, shardable, profile) ; profile "release" unless stated
 PROPS = {
+    "C01": dict(streams=["tbl"], exhaustive="",
+                nontrivial="history with at least one add"),
+    "C02": dict(streams=["tbl"], exhaustive="", nontrivial="history with at least one add"),
+    "C03": dict(streams=["tbl"], exhaustive="", nontrivial="history with at least one add"),
+    "C05": dict(streams=["tbl"], exhaustive="", nontrivial="history with at least one add"),
     "C07": dict(streams=["pkglen", "pkgblk"], exhaustive="all 2^28 lengths x both forms via the hook (block digests), in both tiers",
                 nontrivial="length > 0"),
     "C08": dict(streams=["int", "intblk"], exhaustive="u8 and u16 through all five entry points (quick); u32 through u32/u64/usize (thorough), block digests",
@@ -294,6 +299,8 @@ def nontrivial(stream, case_line):
     body = case_line.split(" ", 1)[1] if " " in case_line else ""
     if stream in ("pkglen", "pkgblk"):
         return not body.startswith("0 ")
+    if stream in ("tbl", "tblbig"):
+        return " ; " in case_line
     if stream == "int":
         return body.split(" ")[-1] not in ("0", "1")
     return len(body.strip()) > 0 and body.strip() != "-"
@@ -401,13 +408,10 @@ def main():
                 for f in mine:
                     bycase.setdefault(f["case"], []).append(f)
                 for case, fs in bycase.items():
-                    kf = None
-                    for f in fs:
-                        kf = match_known(pid, f, known)
-                        if kf is None:
-                            break
-                    if kf is not None:
-                        known_hits.append((kf, fs[0]))
+                    kfs = [match_known(pid, f, known) for f in fs]
+                    if all(k is not None for k in kfs):
+                        for k, f in zip(kfs, fs):
+                            known_hits.append((k, f))
                         continue
                     props_f = [f for f in fs if f["kind"] == "prop"]
                     cov["oracle_failures_on_impl"] += len(props_f)
